@@ -506,7 +506,12 @@ func run(c *core.Ctx) {
 		if s == nil {
 			continue
 		}
-		for _, dest := range corpus.WriteFormats {
+		dests := corpus.WriteFormats
+		if !strings.HasPrefix(d.Name, "testdata/") || c.Tier == core.Thorough {
+			// the same writers under each per-call option (another code path may sit behind an option)
+			dests = append(append([]string{}, dests...), "ttml-noindent", "ttml-tab")
+		}
+		for _, dest := range dests {
 			var ref bytes.Buffer
 			if err, pan := corpus.Write(dest, s, &ref); err != nil || pan != "" {
 				c.Extra["write_pairs_skipped_no_fault_write_fails"]++
